@@ -1,0 +1,13 @@
+//go:build verif
+
+// Contracts for package config (machine-checked by /verif/govc; comment-only file, compiled only with -tags verif).
+
+package config
+
+// The JSON form of the configuration is decoded by the host (Caddy) with its strict decoder, which rejects unknown
+// keys. That only reaches a struct that has no unmarshaller of its own: a custom UnmarshalJSON would decode its part
+// with whatever strictness it chooses. The C19 argument ("unknown option names are rejected at load time, JSON and
+// Caddyfile agree") relies on the configuration structs not having one.
+//@ forbid_method[C19] CDPConfig UnmarshalJSON: the host's strict JSON decoding must see every key of cdp_config
+//@ forbid_method[C19] CRLConfig UnmarshalJSON: the host's strict JSON decoding must see every key of crl_config
+//@ forbid_method[C19] OCSPConfig UnmarshalJSON: the host's strict JSON decoding must see every key of ocsp_config
